@@ -51,7 +51,7 @@ func C15(run *core.Run) {
 		return
 	}
 	run.Assume = []string{
-		"message payloads are one or two representatives per class (plus seeded random bytes); the rlpx frame layer and the discovery packets are exercised by the repository's own decoders on mutated inputs only in the thorough tier",
+		"message payloads are one or two representatives per class (plus seeded random bytes)",
 		"the node runs in a child process so that a crash of a background goroutine is observed as a crash",
 	}
 	res, err := core.RunTLC(core.TLCOpts{Module: "PeerSession", CfgText: fmt.Sprintf(peerCfg, "FALSE", "INVARIANTS NodeAlive\nPROPERTIES OnlyOffenderDropped"), Timeout: 5 * time.Minute})
@@ -117,6 +117,7 @@ func C15(run *core.Run) {
 		json.Unmarshal([]byte(behaviours[50]), &b)
 		run.AddSample(map[string]interface{}{"peer_behaviour": b.Steps})
 	}
+	wireCheck(run)
 	run.Finish()
 }
 
